@@ -144,9 +144,16 @@ def pixels_frame(px, cols=("count",), dtypes=None):
     return pd.DataFrame(d)
 
 
-def make_cooler(path, table, px, mode="symm", cols=("count",), names=None, mode_="w", **kw):
+def make_cooler(path, table, px, mode="symm", cols=("count",), names=None, mode_="w", scale=1, **kw):
+    """`scale` > 1: the value columns are stored as float64 holding v / scale (exact for powers of two)."""
     import cooler
-    cooler.create_cooler(path, bins_frame(table, names), pixels_frame(px, cols),
+    fr = pixels_frame(px, cols)
+    if scale != 1:
+        import numpy as np
+        for c in cols:
+            fr[c] = fr[c].astype(np.float64) / scale
+        kw = dict(kw, dtypes={c: np.float64 for c in cols})
+    cooler.create_cooler(path, bins_frame(table, names), fr,
                          columns=list(cols) if tuple(cols) != ("count",) else None,
                          ordered=True, symmetric_upper=(mode == "symm"), mode=mode_, **kw)
     return path
